@@ -1004,7 +1004,7 @@ func (c *Ctx) c15Labelling() {
 				ok := false
 				for _, ev := range g.events {
 					// the label of this iteration: the range value, or labels[j] of a counting loop over the parameter
-					isLabel := ev.Key != nil && (ev.Key.Kind == pw.KRangeVal || ev.Key.Kind == pw.KIndex && ev.Key.Src != nil && ev.Key.Src.Kind == pw.KParam && (ev.Key.Src2 == nil || ev.Key.Src2.Kind != pw.KConst))
+					isLabel := ev.Key != nil && (ev.Key.Kind == pw.KRangeVal || ev.Key.Kind == pw.KIndex && ev.Key.Src != nil && ev.Key.Src.Kind == pw.KParam)
 					if ev.Kind == pw.EvMapInsert && ev.Recv == target && isLabel && ev.Value != nil && ev.Value.Kind == pw.KAppend && len(ev.Value.Elems) == 1 {
 						el := ev.Value.Elems[0]
 						src := ev.Value.Src
